@@ -6,11 +6,13 @@ package xmpp
 
 import (
 	"context"
-	"time"
 	"errors"
 	"fmt"
 	"os"
+	"sync"
+	"sync/atomic"
 	"testing"
+	"time"
 
 	"gosrc.io/xmpp/stanza"
 )
@@ -116,7 +118,110 @@ func TestVerifReplay_C13(t *testing.T) {
 			report("event state=%d streamError=%q: %d reconnects, %d disconnects; want %d, %d", ev.state, ev.streamError, cl.resumes, cl.discs, ev.wantResume, ev.wantDisc)
 		}
 	}
+	n, ifails := c13integrationAll(t)
+	cases += n
+	for _, m := range ifails {
+		report("%s", m)
+	}
 	fmt.Printf("REPLAY-CASES: %d\n", cases)
 }
 
 func sleepC13() { time.Sleep(time.Millisecond) }
+
+// c13integration runs the real Client under a real StreamManager against a scripted TCP server: session 1 is
+// established and dropped abruptly; the first reconnect attempt meets the given fault; afterwards the server is healthy.
+// Exactly one new session (one more PostConnect call) must follow. fault: 0 none, 1 hang-up before the stream opens
+// (transport.Connect fails), 2 hang-up after the stream features (negotiation fails, no closing tag).
+func c13integration(t *testing.T, fault int) string {
+	var nconn int32
+	sessions := make(chan *ServerConn, 16)
+	mock := ServerMock{}
+	mock.Start(t, "127.0.0.1:0", func(t *testing.T, sc *ServerConn) {
+		n := atomic.AddInt32(&nconn, 1)
+		if n == 2 && fault == 1 {
+			sc.connection.Close()
+			return
+		}
+		if n == 2 && fault == 2 {
+			checkClientOpenStream(t, sc)
+			sendStreamFeatures(t, sc)
+			sc.connection.Close()
+			return
+		}
+		checkClientOpenStream(t, sc)
+		sendStreamFeatures(t, sc)
+		readAuth(t, sc.decoder)
+		sc.connection.Write([]byte("<success xmlns=\"urn:ietf:params:xml:ns:xmpp-sasl\"/>"))
+		checkClientOpenStream(t, sc)
+		sendBindFeature(t, sc)
+		bind(t, sc)
+		sessions <- sc
+	})
+	if mock.listener == nil {
+		return "scripted server cannot listen"
+	}
+	defer mock.Stop()
+	config := Config{
+		TransportConfiguration: TransportConfiguration{Address: mock.listener.Addr().String()},
+		Jid:                    "test@localhost",
+		Credential:             Password("test"),
+		Insecure:               true,
+		ConnectTimeout:         1,
+	}
+	client, err := NewClient(&config, NewRouter(), func(error) {})
+	if err != nil {
+		return "cannot create client: " + err.Error()
+	}
+	var postConnect int32
+	sman := NewStreamManager(client, func(Sender) { atomic.AddInt32(&postConnect, 1) })
+	go sman.Run()
+	var sc1 *ServerConn
+	select {
+	case sc1 = <-sessions:
+	case <-time.After(10 * time.Second):
+		return "first session never established"
+	}
+	for i := 0; i < 2000 && atomic.LoadInt32(&postConnect) < 1; i++ {
+		sleepC13()
+	}
+	sc1.connection.Close() // abrupt loss of the established connection
+	select {
+	case <-sessions:
+	case <-time.After(15 * time.Second):
+		return fmt.Sprintf("fault %d on the first reconnect attempt: no session re-established after the loss (server saw %d connections)", fault, atomic.LoadInt32(&nconn))
+	}
+	extra := 0
+	deadline := time.After(1500 * time.Millisecond)
+collect:
+	for {
+		select {
+		case <-sessions:
+			extra++
+		case <-deadline:
+			break collect
+		}
+	}
+	if extra != 0 || atomic.LoadInt32(&postConnect) != 2 {
+		return fmt.Sprintf("fault %d on the first reconnect attempt: %d additional session(s) for one connection loss, PostConnect ran %d times for 2 sessions (server saw %d connections)", fault, extra, atomic.LoadInt32(&postConnect), atomic.LoadInt32(&nconn))
+	}
+	return ""
+}
+
+func c13integrationAll(t *testing.T) (cases int, fails []string) {
+	var mu sync.Mutex
+	var wg sync.WaitGroup
+	for _, f := range []int{0, 1, 2} {
+		cases++
+		wg.Add(1)
+		go func(f int) {
+			defer wg.Done()
+			if m := c13integration(t, f); m != "" {
+				mu.Lock()
+				fails = append(fails, m)
+				mu.Unlock()
+			}
+		}(f)
+	}
+	wg.Wait()
+	return
+}
